@@ -10,10 +10,10 @@ import FqModel.Zip
       model: `crcWrite` over the REGENERATED table + `crcSum`; predicate: the bit-by-bit CRC with the
       textbook polynomial (hand written here, independent of the generated facts).
   `dec <format> <hex file> <truth…>` TAB `<ok|err> <projection tokens of fq>`
-      model (gzip, tar, png, ogg_page): the Lean parser on the same bytes renders the same tokens
-      (inflate results are taken from the truth: library code); predicate: the projection against the
-      generator's ground truth and the stored checksums against the Lean `crc32`/`adler32`/`crcMsb`.
-      zip, gif, wav: predicate only.
+      model (gzip, tar, png, ogg_page, zip, gif, wav): the Lean parser on the same bytes renders the same tokens
+      (inflate results are taken from the truth: library code; "?" = a token the model does not predict:
+      date renderings, the harness' LZW expansion); predicate: the projection against the generator's ground
+      truth and the stored checksums against the Lean `crc32`/`adler32`/`crcMsb`. bzip2: predicate only.
   `cor <format> <hex file> <pos>:<xor>:<kind>…` TAB `<code>…`
       predicate "never a clean result": kind d: E|I; kind z,a: E|I|C=; kind u (zip/tar, checksum
       never verified by fq): E|I, a clean result is the known finding `checksum-not-validated`.
@@ -516,7 +516,7 @@ def oggProp (file : Bytes) (truth obs : Toks) : String :=
     else "OK"
   | _, _, _, _, _, _, _, _ => "PROPFAIL ogg: no projection"
 
-/-! ### zip (predicate only) -/
+/-! ### zip -/
 
 structure ZipTruth where
   name : Bytes
@@ -666,7 +666,7 @@ def zipModel (file : Bytes) (ts : List (Nat × Nat × Bytes)) : Toks :=
   | .err => ["err", "*"]
   | .unsupported => ["*"]
 
-/-! ### gif (predicate only; `P` tokens = LZW expansion, by the harness with Go's compress/lzw, of the bytes fq reports) -/
+/-! ### gif ( `P` tokens = LZW expansion, by the harness with Go's compress/lzw, of the bytes fq reports) -/
 
 def gifProp0 (truth obs : Toks) : String :=
   match obs with
